@@ -679,6 +679,7 @@ def coq_crosscheck(ctx, items):
                 g(f"snd (run {L} cinit {ops})", f"let cp := compute_plaquettes {L} in map (pure_value_of cp) {ops}")
     ctx.res.extra["extraction_crosscheck_goals_vm_compute"] = X.compile_goals("c02", "Model.Lattice Model.TableSpec Model.Cache Model.Queries", body, "c02")
     ctx.res.extra["extraction_crosscheck_lattices"] = len(pick)
+    ctx.res.extra["extraction_crosscheck_wall_s"] = X.LAST_WALL
 
 
 def evaluate(ctx, cases, label, n_full=60, force_full=False):
